@@ -20,9 +20,13 @@
 //!   x all-ones weights with scale 2^b for block b), per ISA hook; compared with the Lean transcription
 //!   of the kernel's index arithmetic (`scaleIdxFloat` / `scaleIdxInt8`) and with k / bs (PROPFAIL).
 //! `hot … col= kb= byte= nib= q=`: one-hot weight probe of the nibble order / [N, k_blocks, bs/2] layout.
+//! `qrow bs= x=`: `quantize` (LHS blockwise int8 quantisation, via `verif::quantize_row`) on exactly
+//!   representable rows, compared with the Lean `quantizeExact`; `# qrowr` (oracle-only): on random reals the
+//!   NearestQ law |q·scale − x| ≤ (1+4e-5)·scale/2 and |q| ≤ 127.
 //! `# tol …` lines (not compared with the model): random real-valued data, PROPFAIL only if the
 //!   result differs from dequantize + naive f64 by more than `1e-4·Σ|a_k·w_k| + 1e-6` (Float, gemm)
-//!   plus the LHS quantisation bound `1.01·Σ_k (absmax_block/254)·|w_k|` (Int8).
+//!   plus exactly the bound of theorem `c37_int8_error_bound`, `Σ_k (rs_{k/bs}/2)·|w_k|` with the row scales
+//!   the real `quantize` produced, widened by (1+4e-5) for f32 (Int8).
 //!
 //! Independent oracle for `bq` lines: i64 dequantize-then-multiply (PROPFAIL on any difference).
 use hcommon::{Args, Out, Rng};
@@ -476,6 +480,37 @@ fn index_probes(out: &mut Out, rng: &mut Rng, thorough: bool) {
     }
 }
 
+/// `qrow bs= x=<rle>`: the real blockwise LHS quantisation on exactly representable rows.
+fn qrow_case(out: &mut Out, c: &Case) {
+    if c.k() == 0 || !c.int8_exact {
+        return;
+    }
+    let k = c.k();
+    let row: Vec<i32> = c.lhs[..k].to_vec();
+    let req = format!("qrow bs={} x={}", c.bs, rle(&row));
+    let xf: Vec<f32> = row.iter().map(|&v| v as f32).collect();
+    let res = hcommon::catch(|| hook::quantize_row(&xf, c.bs));
+    let (ans, fail) = match res {
+        Ok((q, s)) => {
+            let mut fail = None;
+            let si: Vec<i64> = s.iter().map(|&v| if v.fract() == 0.0 { v as i64 } else { -1 }).collect();
+            for (i, &qi) in q.iter().enumerate() {
+                if qi as f64 * s[i / c.bs] as f64 != row[i] as f64 {
+                    fail = Some(format!("quantize is not exact on an exactly representable block: x={} -> q={qi} scale={}", row[i], s[i / c.bs]));
+                }
+            }
+            (format!("q={} s={}", rle(&q.iter().map(|&v| v as i64).collect::<Vec<_>>()), rle(&si)), fail)
+        }
+        Err(m) => ("panic".to_string(), Some(format!("panic {m}"))),
+    };
+    out.bucket("qrow_exact");
+    out.case(&req, &ans, fail.as_deref(), true);
+}
+
+/// Relative slack on the half-step law of `quantize` in f32: `x * inv_scale` is rounded to f32
+/// before `round()` (|x·inv| ≤ 127, so the absolute error is ≤ 127·2^-24 ≈ 7.6e-6 steps).
+const HALF_STEP_EPS: f64 = 4e-5;
+
 fn tol_case(out: &mut Out, rng: &mut Rng) {
     let bs = *rng.pick(&[16usize, 32, 64, 128, 256]);
     let nb = 1 + rng.usize_below((1024 / bs).max(1));
@@ -494,6 +529,23 @@ fn tol_case(out: &mut Out, rng: &mut Rng) {
     }
     for isa in rten_gemm::verif::INT8_DOT_ISAS {
         variants.push(("int8", isa));
+    }
+    // The real LHS quantisation (`quantize` via the hook): per-row block scales, and the NearestQ
+    // law |q·scale − x| ≤ scale/2 (ε-weakened for the f32 product x·inv_scale), |q| ≤ 127.
+    let mut row_scales: Vec<Vec<f32>> = vec![];
+    for r in 0..batch * m {
+        let (qv, sc) = hook::quantize_row(&lhs[r * k..(r + 1) * k], bs);
+        let mut bad = None;
+        for (i, (&qi, &x)) in qv.iter().zip(&lhs[r * k..(r + 1) * k]).enumerate() {
+            let s = sc[i / bs] as f64;
+            let err = (qi as f64 * s - x as f64).abs();
+            if !(err <= s / 2.0 * (1.0 + HALF_STEP_EPS) + 1e-30) || qi == i8::MIN {
+                bad = Some(format!("quantize: x={x} -> q={qi} scale={s}: |q*scale - x| = {err} exceeds half a step"));
+            }
+        }
+        out.bucket("qrow_random");
+        out.case(&format!("# qrowr bs={bs} k={k} amp={amp}"), if bad.is_some() { "fail" } else { "ok" }, bad.as_deref(), true);
+        row_scales.push(sc);
     }
     for (mode, isa) in variants {
         let res = hcommon::catch(|| run_case(&c, mode, isa, &lhs, &sf));
@@ -514,16 +566,19 @@ fn tol_case(out: &mut Out, rng: &mut Rng) {
                 let mut bnd = 0.0f64;
                 let mut qb = 0.0f64;
                 for blk in 0..nb {
-                    let absmax = lhs[r * k + blk * bs..r * k + (blk + 1) * bs].iter().fold(0.0f32, |a, x| a.max(x.abs())) as f64;
+                    // row scale of this block as the real `quantize` computes it
+                    let rs = row_scales[r][blk] as f64;
                     for ki in blk * bs..(blk + 1) * bs {
                         let w = elem(&c, col, ki) as f64 * sf[col * nb + blk] as f64;
                         let a = lhs[r * k + ki] as f64;
                         refv += a * w;
                         bnd += (a * w).abs();
-                        qb += absmax / 254.0 * w.abs();
+                        qb += rs / 2.0 * w.abs();
                     }
                 }
-                let tol = 1e-4 * bnd + 1e-6 + if int8 { 1.01 * qb + 1e-4 * bnd } else { 0.0 };
+                // Int8: exactly the bound of theorem c37_int8_error_bound, Σ_k (rs_{k/bs}/2)·|w_k|,
+                // widened by the f32 slack of `x * inv_scale` (HALF_STEP_EPS, checked on quantize_row)
+                let tol = 1e-4 * bnd + 1e-6 + if int8 { (1.0 + HALF_STEP_EPS) * qb + 1e-4 * bnd } else { 0.0 };
                 let d = (v[r * n + col] as f64 - refv).abs();
                 if !(d <= tol) && bad.is_none() {
                     bad = Some(format!("out[{r},{col}]={} reference {refv} |diff| {d} > tolerance {tol}", v[r * n + col]));
@@ -786,6 +841,9 @@ fn run(args: &Args) {
         exact_case(&mut out, &c);
         if i % 3 == 0 {
             op_case(&mut out, &c);
+        }
+        if i % 2 == 0 {
+            qrow_case(&mut out, &c);
         }
         if i % 15 == 0 {
             op_error_cases(&mut out, &c);
